@@ -147,7 +147,10 @@ def h_await_each(n: int, steps: int, failing: int, s: int, as_iter: bool):
                 ok = fail("await_each:did-not-stop", end) and ok
         elif end is not None:
             ok = fail("await_each:ended-early", end) and ok
+        before = len(log)
         D.aclose(ait)
+        if len(log) != before or (as_iter and len(made) > want_awaited + (1 if steps > want_awaited else 0)):
+            ok = fail("await_each:awaitables-nobody-asked-for-awaited-when-closed", (before, len(log))) and ok
     except Suspended:
         ok = fail("await_each:suspended-with-nonsuspending-arguments") and ok
     for a in aws:
@@ -288,7 +291,10 @@ def h_sync(flavour: int, outcome: int, s: int):
             fl = v
     fn = [plain, coro, functools.partial(coro, 1), Obj(), lambda x, y=0: coro(x, y), SyncObj(), lambda x, y=0: Aw(x, y), functools.partial(plain, 1)][fl]
     ok = True
-    wrapped = A.sync(fn)
+    w0 = call_sync(lambda: A.sync(fn))
+    if w0[0] == "exc":
+        return finish(fail("sync:callable-rejected", w0[1]), True, ("sync", fl, outcome))
+    wrapped = w0[1]
     if fl == 1 and wrapped is not coro:
         ok = fail("sync:coroutine-function-not-returned-unchanged") and ok
     if fl == 2 and wrapped is not fn and False:
